@@ -25,7 +25,7 @@ partial def valToJson (names : Array String) : Val → Json
   | .list l => .arr (l.map (valToJson names)).toArray
 
 def fldOfStr : String → Except String Fld
-  | "x" => .ok .x | "y" => .ok .y | "z" => .ok .z
+  | "x" => .ok .x | "y" => .ok .y | "z" => .ok .z | "u" => .ok .u | "v" => .ok .v
   | s => .error s!"bad-field {s}"
 
 def nameIdx (names : Array String) (s : String) : Except String Nat :=
@@ -75,7 +75,7 @@ def nodeOfJson (names : Array String) (j : Json) : Except String Node := do
   let combStrs := ((j.getObjValAs? (Array String) "combine").toOption.getD #[]).toList
   let own := (combStrs.zip comb).filterMap fun (cs, k) =>
     if (cs.splitOn nameStr).length > 1 then some k else none
-  let nd : Node := { name := name, x := ← src "x", y := ← src "y", z := ← src "z", split := split, comb := comb,
+  let nd : Node := { name := name, x := ← src "x", y := ← src "y", z := ← src "z", u := ← src "u", v := ← src "v", split := split, comb := comb,
                      nested := nested, ownCombOverride := some own }
   for f in split.fields do
     match nd.src f with
